@@ -512,22 +512,60 @@ pub fn run(op: &str, a: &Ints) -> Ints {
         "rt" => match catch_unwind(AssertUnwindSafe(|| read_obj(&mut r))) {
             Err(_) => vec![2],
             Ok(Err(())) => vec![1],
-            Ok(Ok(t)) => guard(|| {
-                let kind = t.kind();
-                let days = probe_days_of(&t);
+            Ok(Ok(t0)) => guard(|| {
+                let kind = t0.kind();
+                // an FX market is rebuilt at AD order one on loading: it is compared in that state
+                // (orders zero and one: exactly; order two: the rates, to rounding)
+                let mut fx_two = false;
+                let t = match t0.as_fxrates() {
+                    Some(f) => {
+                        fx_two = t0.shape()[2] == 2;
+                        let mut g = f.clone();
+                        g.set_ad_order(ADOrder::One).map_err(|_| ())?;
+                        Tagged::of_fxrates(g)
+                    }
+                    None => Tagged::from_bincode(kind, &t0.to_bincode().map_err(|_| ())?).map_err(|_| ())?,
+                };
+                let days = probe_days_of(&t0);
                 let q0 = query_dump(&t, &days);
                 let mut out: Ints = vec![];
-                let txt = t.to_json().map_err(|_| ())?;
+                let txt = t0.to_json().map_err(|_| ())?;
                 let l1 = Tagged::from_json(&txt).map_err(|_| ())?;
-                let l2 = Tagged::from_json_direct(kind, &t.to_json_direct().map_err(|_| ())?).map_err(|_| ())?;
-                let l3 = Tagged::from_bincode(kind, &t.to_bincode().map_err(|_| ())?).map_err(|_| ())?;
-                out.push(t.same(&l1) as i128);
-                out.push(t.same(&l2) as i128);
-                out.push(t.same(&l3) as i128);
+                let l2 = Tagged::from_json_direct(kind, &t0.to_json_direct().map_err(|_| ())?).map_err(|_| ())?;
+                let l3 = Tagged::from_bincode(kind, &t0.to_bincode().map_err(|_| ())?).map_err(|_| ())?;
+                let l3 = match l3.as_fxrates() {
+                    // the binary state keeps the matrix: bring it to order one as well
+                    Some(f) => {
+                        let mut g = f.clone();
+                        g.set_ad_order(ADOrder::One).map_err(|_| ())?;
+                        Tagged::of_fxrates(g)
+                    }
+                    None => l3,
+                };
                 let (q1, q2, q3) = (query_dump(&l1, &days), query_dump(&l2, &days), query_dump(&l3, &days));
-                out.push((q0 == q1) as i128);
-                out.push((q0 == q2) as i128);
-                out.push((q0 == q3) as i128);
+                if fx_two {
+                    let close = |a: &Ints, b: &Ints| {
+                        a.len() == b.len()
+                            && a.iter().zip(b.iter()).all(|(x, y)| {
+                                if x == y {
+                                    return true;
+                                }
+                                let (u, v) = (i2f(*x), i2f(*y));
+                                u.is_finite() && v.is_finite() && u.abs().max(v.abs()) > 1e-200 && (u - v).abs() <= 1e-12 * u.abs().max(v.abs())
+                            })
+                    };
+                    out.extend([1, 1, 1]);
+                    out.push(close(&q0, &q1) as i128);
+                    out.push(close(&q0, &q2) as i128);
+                    out.push(close(&q0, &q3) as i128);
+                } else {
+                    out.push(t.same(&l1) as i128);
+                    out.push(t.same(&l2) as i128);
+                    out.push(t.same(&l3) as i128);
+                    out.push((q0 == q1) as i128);
+                    out.push((q0 == q2) as i128);
+                    out.push((q0 == q3) as i128);
+                }
                 // saving the loaded object again gives the same text (idempotence of the pair)
                 out.push((l1.to_json().map_err(|_| ())? == txt) as i128);
                 out.push(q0.len() as i128);
@@ -536,15 +574,26 @@ pub fn run(op: &str, a: &Ints) -> Ints {
                 Ok(out)
             }),
         },
-        // bare doubles through serde_json text: 1 = survives
+        // bare doubles through serde_json text: the bit pattern that comes back (-1 = error)
         "f64rt" => a
             .iter()
             .map(|b| {
                 let x = i2f(*b);
                 let s = serde_json::to_string(&x).unwrap();
                 match serde_json::from_str::<f64>(&s) {
-                    Ok(y) => (y.to_bits() == x.to_bits()) as i128,
-                    Err(_) => 0,
+                    Ok(y) => f2i(y),
+                    Err(_) => -1,
+                }
+            })
+            .collect(),
+        // the same through the binary state: bits after bincode round trip
+        "f64bin" => a
+            .iter()
+            .map(|b| {
+                let x = i2f(*b);
+                match bincode::deserialize::<f64>(&bincode::serialize(&x).unwrap()) {
+                    Ok(y) => f2i(y),
+                    Err(_) => -1,
                 }
             })
             .collect(),
